@@ -7,7 +7,7 @@ jobs=${1:-4}
 OUT=/verif/seeded/RESULTS.tsv
 python3 - <<'PY' > /tmp/seedmatrix.list
 import json, glob, os
-for mf in sorted(glob.glob('/verif/seeded/*/meta.json')):
+for mf in sorted(glob.glob('/verif/seeded/*/meta.json') + glob.glob('/verif/seeded/*/r2/meta.json')):
     m = json.load(open(mf)); d = os.path.dirname(mf)
     for c in m['changes']:
         if c.get('kept', True) is False: continue
